@@ -1,11 +1,12 @@
 /*@unit {
  'kind': 'proof', 'mode': 'legacy',
- 'functions': ['debug_printdec_double_prec', 'debug_printdec_float_prec', 'debug_printdec_uint64', 'debug_printdec_signed_long_long', 'debug_print', 'debug_write'],
+ 'functions': ['debug_printdec_double_prec', 'debug_printdec_float_prec', 'debug_printdec_signed_long_long', 'debug_print', 'debug_write'],
  'clauses': 'for EVERY binary64 bit pattern (ENTRY=0) / binary32 bit pattern (ENTRY=1, through debug_printdec_float_prec) and every int prec: NaN => exactly "nan", infinity => exactly "+inf" / "-inf"; finite (|a| < 2^64, prec <= 9) => the emitted character stream is accepted by -?[0-9]+\\.[0-9]{prec} (prec >= 1; for prec <= 0 by -?[0-9]+): a "-" first exactly when a < 0, at least one integer digit, one point, exactly prec fraction digits, no other character; the float->integer casts stay in range (conversion obligations).  The code\'s running fraction o equals the spec\'s frac(|a|)*10^i in every iteration (co-simulation), loop closed by an invariant for arbitrary prec',
  'params': {'ENTRY': [0, 1]},
+ 'replace': ['debug_printdec_uint64'],
  'inject': [
    {'file': 'igris/dprint/dprint_func_impl.c', 'func': 'debug_printdec_double_prec', 'loop': 0, 'expect': '_iteration < prec',
-    'assigns': '_iteration, o, g_s, g_z, g_st, g_on, g_fd, __CPROVER_object_whole(g_first)',
+    'assigns': '_iteration, o, g_s, g_z, g_st, g_on, g_fd',
     'invariants': ['0 <= _iteration && (_iteration <= prec || (prec < 0 && _iteration == 0))',
                    'o == g_s',
                    'o >= 0.0 && o < C12_POW10D(_iteration)',
@@ -15,12 +16,13 @@
    {'file': 'igris/dprint/dprint_func_impl.c', 'func': 'debug_printdec_double_prec', 'ghost': 'spec_dprint_step();', 'at': 'body-begin', 'loop': 0},
    {'file': 'igris/dprint/dprint_func_impl.c', 'func': 'debug_printdec_double_prec', 'ghost': 'spec_dprint_frac_region(KF_C12_dprint_fracdigits, prec);', 'at': 'before', 'anchor': 'o += 0.5;'},
  ],
- 'unwind': 23,
- 'complete_unwinding': 'debug_printdec_uint64 digit loop <= 20 iterations (uint64 has at most 20 decimal digits), debug_strlen / debug_write over that text <= 21: unwound 23 times with unwinding assertions; the fraction loop (prec iterations, prec arbitrary) is closed by the injected invariant',
+ 'unwind': 6,
+ 'complete_unwinding': 'debug_strlen / debug_write over the tokens nan, +inf, -inf: <= 5 iterations, unwound 6 times with unwinding assertions; the two calls of debug_printdec_uint64 are replaced by its contract (contracts/c12_dprint_contracts.h, proved by unit dprint_uint64); the fraction loop (prec iterations, prec arbitrary) is closed by the injected invariant',
  'checks_extra': ['--conversion-check', '--float-overflow-check', '--nan-check'],
  'solver': 'cadical',
  'kf': ['C12_dprint_range', 'C12_dprint_prec10', 'C12_dprint_fracdigits'],
  'witness': {'unwind': 23},
+ 'note': 'in the concretisation / replay runs the real debug_printdec_uint64 runs (replay links the real code)',
  'trusted': ['debug_putchar is the platform hook (dprint.h: implemented outside the library); the unit supplies the observing acceptor c12_sink for it'],
  'assumptions': ['|a| < 2^64 for finite arguments (integer part goes through a uint64_t cast): beyond it known finding C12_dprint_range',
                  'prec <= 9 (the running fraction goes through an int cast, 10^10 > INT_MAX): beyond it known finding C12_dprint_prec10',
@@ -32,6 +34,7 @@
 #include <igris/dprint.h>
 void debug_putchar(char c) { c12_sink(c); } /* platform hook = observer */
 #include "igris/dprint/dprint_manually.c"   /* the library's own (weak) debug_write */
+#include "c12_dprint_contracts.h"
 #include "igris/dprint/dprint_func_impl.c"
 
 void harness(void)
@@ -74,7 +77,7 @@ void harness(void)
                          "infinity prints as the token inf with its sign");
     } else {
         __CPROVER_assert(g_st != C12_S_BAD, "finite: the character stream is accepted by -?[0-9]+(.[0-9]*)? (no other character, sign first, one point)");
-        __CPROVER_assert((g_first[0] == '-') == (a < 0), "finite: a minus sign exactly when a < 0");
+        __CPROVER_assert((g_minus != 0) == (a < 0), "finite: a minus sign (first character) exactly when a < 0");
         __CPROVER_assert(g_id >= 1, "finite: at least one integer digit");
         __CPROVER_assert(prec >= 1 ? (g_st == C12_S_FRAC && g_fd == (unsigned)prec) : g_st == C12_S_INT,
                          "finite: exactly the requested number of fraction digits (none and no point for prec <= 0)");
